@@ -8,6 +8,8 @@ def run(name):
     meta = json.load(open(d + "/meta.json"))
     pid = meta["property"]
     det = meta.get("detected_by") or {}
+    if not isinstance(det, dict):
+        det = {}
     if det.get("exit") == 0:
         return name, 1, 0, "", "documented limit of the property's own check: " + det.get("note", "")[:120]
     m2 = re.search(r"bin/check (C\d\d)", det.get("check", ""))
